@@ -50,7 +50,7 @@ def main():
     chk2 = c03.root_check('C05', ['C05/zz_verif_c05_dist.go'], extra_installers=[seqchan.install, orbit.install_relay])
     PR = MOD + '.'
     chk2.load([PR + 'VerifC05Distribute'])
-    dgrid = [(0, 0, 1), (0, 1, 1), (1, 0, 1), (1, 1, 2), (2, 1, 1), (2, 2, 1), (2, 3, 2)] if t == 'quick' else [(0, 0, 1), (0, 1, 1), (0, 2, 4), (1, 0, 1), (1, 1, 2), (1, 2, 14), (2, 1, 1), (2, 2, 1), (2, 3, 2), (2, 4, 4)]
+    dgrid = [(0, 0, 1), (1, 0, 1), (2, 1, 1), (2, 2, 1), (2, 3, 2)] if t == 'quick' else [(0, 0, 1), (0, 1, 1), (0, 2, 4), (1, 0, 1), (1, 1, 2), (2, 1, 1), (2, 2, 1), (2, 3, 2), (2, 4, 4)]
     dj = []
     for (sc, st, K) in dgrid:
         for i in range(K):
@@ -70,7 +70,6 @@ def main():
     res += chk3.run_jobs([Job(P + 'VerifC09FirstUse', (0,), cfg=cfg, installers=[functools.partial(_c05_coop, 2)], shard=(i, FK), max_paths=400000,
                               label='VerifC09FirstUse(0)[pre<=2]#%d/%d' % (i, FK)) for i in range(FK)])
     chk = chk3
-    chk = chk2
     finish(chk, res, t,
            explanation='Symbolic execution of GetShareableChainKey / encryptDeviceChainKey / decryptDeviceChainKey / groupIDToNonce / '
                        'RegisterChainKey / EdwardsToMontgomery over the term algebra (X25519 symmetric for honest points, box = sbox under '
